@@ -181,9 +181,54 @@ def gen_shared_candidates(rng, sched_rng) -> Dict[str, Any]:
     return {"part": "A", "knobs": {"regex_maxcache": None}, "ops": ops, "strategy": "shared-candidates"}
 
 
+def gen_family_cross(rng, sched_rng) -> Dict[str, Any]:
+    """DIFFERENT compiled queries of ONE environment built around a textually equal sub-query
+    (what "intern equal sub-expressions" would share), each iterated over its OWN document (same
+    shape, other content), the iterators advanced in turn: what one evaluation leaves on a shared
+    expression node is what the other finds there."""
+    e = rng.choice(H.SHARED_SUBEXPR[:8])  # the root-referencing ones
+    frames = list(H.SHARED_FRAMES)
+    rng.shuffle(frames)
+    qs = [f.format(e=e) for f in frames[: rng.choice((2, 2, 3))]]
+    base = D.random_tree(rng, max_nodes=rng.choice((12, 20, 30)), max_depth=rng.choice((3, 4)), p_dict=0.6)
+    if not isinstance(base, (list, dict)):
+        base = {"a": [base, {"a": 1}], "b": {"a": 2}}
+    ops: List[Dict[str, Any]] = [{"op": "new_env", "id": "e0", "spec": {"funcs": []}}]
+    env = rng.choice(("e0", "e0", "module"))
+    for i, q in enumerate(qs):
+        if i == 0:
+            tree = base
+        elif rng.random() < 0.6:
+            # another shape altogether: counts and existence differ, not just values
+            tree = D.random_tree(rng, max_nodes=rng.choice((4, 12, 30)), max_depth=rng.choice((2, 3, 4)), p_dict=0.6)
+            if not isinstance(tree, (list, dict)):
+                tree = [tree]
+        else:
+            tree = _perturb(rng, copy.deepcopy(base))
+            if rng.random() < 0.5 and isinstance(tree, dict):
+                tree = {**tree, rng.choice(("a", "b")): [1, {"a": rng.randint(0, 9), "b": [rng.randint(0, 9)]}, 2]}
+        ops.append({"op": "new_doc", "id": f"d{i}", "spec": {"json": tree}})
+        ops.append({"op": "compile", "id": f"c{i}", "env": env, "q": q})
+    live = []
+    for i in range(len(qs)):
+        ops.append({"op": "iter_open", "id": f"i{i}", "c": f"c{i}", "doc": f"d{i}"})
+        live.append(f"i{i}")
+        if sched_rng.random() < 0.5:
+            ops.append({"op": "iter_next", "it": f"i{i}", "n": 1})
+    for a in range(sched_rng.choice((6, 12, 24))):
+        ops.append({"op": "iter_next", "it": live[a % len(live)] if sched_rng.random() < 0.7 else sched_rng.choice(live), "n": sched_rng.choice((1, 1, 2))})
+        if sched_rng.random() < 0.1:
+            i = sched_rng.randrange(len(qs))
+            ops.append({"op": "apply", "c": f"c{i}", "doc": f"d{sched_rng.randrange(len(qs))}", "entry": sched_rng.choice(H.ENTRIES)})
+    return {"part": "A", "knobs": {"regex_maxcache": None}, "ops": ops, "strategy": "family-cross"}
+
+
 def gen_a(rng, sched_rng, tier: str) -> Dict[str, Any]:
-    if rng.random() < 0.06:
+    r0 = rng.random()
+    if r0 < 0.06:
         return gen_shared_candidates(rng, sched_rng)
+    if r0 < 0.15:
+        return gen_family_cross(rng, sched_rng)
     setup, docs, envs, envspecs, queries = _pool(rng, tier)
     ops = list(setup)
     compiled = []
